@@ -228,6 +228,10 @@ func hostileFileCase(o *suiteOut, cur, line string) {
 				}
 			}
 		})
+		if len(data) < 20000 {
+			t1rLine(o, data)
+			o.count("sabotaged fonts through the reader model (t1r)")
+		}
 	case "cmap":
 		rr := newRng(r.next())
 		data := randCMap(rr).render(rr, "none")
